@@ -47,18 +47,30 @@ func fragmentingFileNamer() fileNamer {
 
 func fragmentFileName(key string) string {
 	encoded := base64.RawURLEncoding.EncodeToString([]byte(key))
+	if encoded == "" {
+		return emptyKeyFileName
+	}
 	if len(encoded) <= 255 { // Common filesystem filename limit
 		return encoded
 	}
-
-	// Fragment the encoded string
+	// Directory fragments end with a marker that is not part of the base64url
+	// alphabet, so the file of one key can never be the directory of another
+	// key that merely extends it.
 	var parts []string
-	for i := 0; i < len(encoded); i += fragmentSize {
-		end := min(i+fragmentSize, len(encoded))
-		parts = append(parts, encoded[i:end])
+	for len(encoded) > fragmentSize {
+		parts = append(parts, encoded[:fragmentSize-1]+dirFragmentMarker)
+		encoded = encoded[fragmentSize-1:]
 	}
+	parts = append(parts, encoded)
 	return filepath.Join(parts...)
 }
+
+const (
+	dirFragmentMarker = "."
+	// emptyKeyFileName names the file of the empty key; no base64url encoding
+	// has a length of one, so it cannot collide with another key.
+	emptyKeyFileName = "_"
+)
 
 func fragmentingFileNameKeyer() fileNameKeyer {
 	return fileNameKeyerFunc(fragmentedFileNameToKey)
@@ -70,10 +82,15 @@ var filepathSeparatorReplacer = strings.NewReplacer(
 )
 
 func fragmentedFileNameToKey(name string) (string, error) {
+	if name == emptyKeyFileName {
+		return "", nil
+	}
 	// Check if the name contains path separators (i.e., is fragmented)
 	if strings.ContainsRune(name, filepath.Separator) {
 		// Handle fragmented path
-		base64Str := filepathSeparatorReplacer.Replace(name)
+		base64Str := filepathSeparatorReplacer.Replace(
+			strings.ReplaceAll(name, dirFragmentMarker+string(filepath.Separator), ""),
+		)
 		decoded, err := base64.RawURLEncoding.DecodeString(base64Str)
 		if err != nil {
 			return "", err
